@@ -223,13 +223,6 @@ impl<T: Elem> Sys<T> {
             if self.w.free() != cap - used {
                 return fail("free", format!("free() = {}, model {}", self.w.free(), cap - used));
             }
-            let d = self.r.verif_dump();
-            if d.used != used || (d.rpos + d.used) % cap != d.wpos % cap || d.rpos >= cap {
-                return fail(
-                    "bookkeeping",
-                    format!("rpos {} wpos {} used {} model used {used}", d.rpos, d.wpos, d.used),
-                );
-            }
             let ov = verif::take_overlaps();
             if !ov.is_empty() {
                 return fail("window-overlap", format!("{:?}", ov[0]));
@@ -293,43 +286,24 @@ impl<T: Elem> Sys<T> {
                 format!("read window tags: got {got_tags:?}, want {want_tags:?}"),
             );
         }
-        // Pointers.
+        // Nothing below looks at cursor values or window addresses: a ring that
+        // numbers its positions differently is just as correct. The internal
+        // state is only used as part of the search's state key.
         let d = self.r.verif_dump();
-        let sz = std::mem::size_of::<T>();
-        let rp = rb.slice().as_ptr() as usize;
-        let wp = wb.slice().as_ptr() as usize;
-        let base = match self.base {
-            Some(b) => b,
-            None => {
-                let b = rp - d.rpos * sz;
-                self.base = Some(b);
-                b
-            }
-        };
-        if rp != base + d.rpos * sz || d.rpos >= cap.max(1) {
-            return fail(
-                "pointer",
-                format!("read window at {rp:#x}, want base {base:#x} + {}*{sz}", d.rpos),
-            );
-        }
-        if wb.len() > 0 && (wp != base + d.wpos * sz || d.wpos >= cap) {
-            return fail(
-                "pointer",
-                format!("write window at {wp:#x}, want base {base:#x} + {}*{sz}", d.wpos),
-            );
-        }
-        if d.used != used || (d.rpos + d.used) % cap != d.wpos % cap {
-            return fail(
-                "bookkeeping",
-                format!("rpos {} wpos {} used {} model used {used}", d.rpos, d.wpos, d.used),
-            );
-        }
+        let _ = (&mut wb, &mut self.base);
         // Hidden invariant with a visible consequence: a tag left in the map
         // for a position that is not buffered is shown to the reader as soon as
         // that position is written again.
+        // (Only meaningful for a tag map keyed by ring position; with any
+        // other representation this clause stays silent and a stale tag is
+        // caught when it surfaces in a successor state.)
+        let positional = d.rpos < cap && d.used <= cap && d.tags.iter().all(|(p, _)| *p < cap);
         for (pos, ts) in &d.tags {
+            if !positional {
+                break;
+            }
             let rel = (*pos + cap - d.rpos) % cap;
-            if (rel >= d.used || *pos >= cap) && !ts.is_empty() {
+            if rel >= d.used && !ts.is_empty() {
                 return fail(
                     "stale-tag",
                     format!(
